@@ -54,3 +54,9 @@ func VHJSONLoad() {
 	c, _ := VGQueue()
 	containers.VJSONLoad(vJSON(c))
 }
+
+// VHHistory: D operations in a row from the constructor (see VMapHistory).
+func VHHistory() {
+	q := New[int]()
+	containers.VLinHistory(containers.VLin{Name: "ArrayQueue", C: q, Push: q.Enqueue, Pop: q.Dequeue, Peek: q.Peek, Inv: func() { v.Assert(q.list != nil, "inv-list") }})
+}
